@@ -404,7 +404,18 @@ impl Check for C10 {
             }
             _ => String::new(),
         };
-        let with_ref = if comment.is_empty() { src.clone() } else { format!("{src}{comment}\n") };
+        // other comments at the end of the file, next to the reference: they are not the superseded comment
+        let (before, after) = match t.below(4) {
+            0 => ("// end of module\n", ""),
+            1 => ("", "/* eof */\n"),
+            2 => ("/* last words */ // and more\n", "// after the reference\n"),
+            _ => ("", ""),
+        };
+        // blanks after the URL of a line comment belong to no URL
+        let pad = if !comment.is_empty() && !comment.contains('\n') && comment.starts_with("//") && t.chance(40) { " \t" } else { "" };
+        let src = format!("{src}{before}");
+        let with_ref = if comment.is_empty() { format!("{src}{after}") } else { format!("{src}{comment}{pad}\n{after}") };
+        let src = format!("{src}{after}");
         let tags: Vec<&str> = p.tags.iter().copied().collect();
         json!({
             "src": with_ref, "srcNoRef": src, "cfg": cfg.json, "file": file, "files": files, "kind": kind, "usable": usable, "expectRead": expect_read,
@@ -567,6 +578,20 @@ impl Check for C10 {
                         let n2 = crate::erase::normalize(&p2.tree);
                         if let Some(d) = crate::erase::first_diff(&n2, &n1, "") {
                             return Outcome::fail("program-text-altered", format!("removing the reference comment altered the program (reference without comment vs output): {d}"));
+                        }
+                        // ... and the same comments (whatever the printer does with comments in general, it does it to both)
+                        if cfg.comments && kind != "two-comments" {
+                            let texts = |p: &ast::Parsed| {
+                                let mut v: Vec<(bool, String)> = p.comments.iter().filter(|c| !c.2.trim_start().starts_with("# sourceMappingURL=") && !c.2.trim_start().starts_with("@ sourceMappingURL=")).map(|c| (c.1, c.2.clone())).collect();
+                                v.sort();
+                                v
+                            };
+                            let (c1, c2) = (texts(&parsed), texts(&p2));
+                            if c1 != c2 {
+                                let lost: Vec<&(bool, String)> = c2.iter().filter(|c| !c1.contains(c)).collect();
+                                let extra: Vec<&(bool, String)> = c1.iter().filter(|c| !c2.contains(c)).collect();
+                                return Outcome::fail("comment-altered", format!("comments differ from those of the same program rewritten without the reference comment: lost {:?}, extra {:?}", lost, extra));
+                            }
                         }
                     }
                 }
